@@ -261,6 +261,9 @@ def run_property(pid, tier='quick', seed=0, replay_file=None, nproc=None):
         shards = list(mod.shards(tier, seed))
         # VERIF_SEED only permutes the work order (the set of cases is fixed)
         order = np.random.RandomState(seed % (2 ** 32)).permutation(len(shards))
+        # shards tagged 'pinned' (the recorded inputs of open findings) always run first, so that a budget-capped run
+        # still reports every KNOWN-FINDING line
+        order = sorted(order, key=lambda i: 0 if (isinstance(shards[int(i)], tuple) and shards[int(i)] and shards[int(i)][0] == 'pinned') else 1)
         items = [(int(i), 'shard', shards[int(i)]) for i in order]
 
     deadline = t0 + _budget(tier)
@@ -307,6 +310,12 @@ def run_property(pid, tier='quick', seed=0, replay_file=None, nproc=None):
         confirmed = {}
         unconfirmed = []
         harness_err = list(errors)
+        if capped:
+            # the budget is spent: drop the shards still queued / running, confirmations get a pool of their own
+            # (otherwise they would wait behind all of the remaining work)
+            pool.terminate()
+            pool.join()
+            pool = make_pool(mod, tier, seed, 2)
         if not replay_file:
             for sig, v in sorted(merged['viol'].items()):
                 outs = []
